@@ -267,6 +267,28 @@ func TestC08(t *testing.T) {
 			}
 			c.Ev.MarkExhaustive(fmt.Sprintf("%d heads with multi-line strings/comments/blank lines x %d truncated or malformed tails x 5 text endings", len(heads), len(tails)))
 		})
+		// the first diagnostic falls on a token that itself spans lines (a string with line breaks in it, standing where
+		// no string may stand), written at every distance from the left margin and with last lines of every length
+		c.Sub("errors-at-multiline-tokens", func(s *Sub) {
+			var k int64
+			for _, before := range []string{"nil", bn.KwPrint + " 1 ", "x = 5", "f(\"a\nb\" ", "[1, 2 ", "a.k ", bn.KwVar + " v = 1 ", bn.KwReturn + " 2 ", "(1 + 2) ", ")", "1 +"} {
+				for _, pad := range []int{0, 1, 7, 40, 300} {
+					for _, str := range []string{"\"\n\"", "\"ab\nc\"", "\"\n\n\n\"", "\"a\nlonger last line than anything before it on the first line of this literal\"", "\"\u0995\u09cb\n\u0996\"", "\"x\r\n\"", "\"\n"} {
+						for _, after := range []string{";", "", ";\n" + bn.KwPrint + " 2;\n", " + 1;"} {
+							k++
+							if !c.Mine(k) {
+								continue
+							}
+							text := bn.KwPrint + " \"first\";\n" + strings.Repeat(" ", pad) + before + str + after
+							c.c08Text(s, "errors-at-multiline-tokens", text, true)
+							// and as a whole run (batch mode; every fourth through the executable): rejected, nothing executed
+							c.c08NoRun(s, text, k%4 == 0)
+						}
+					}
+				}
+			}
+			c.Ev.MarkExhaustive("11 contexts x 5 indentations x 7 strings spanning lines x 4 continuations")
+		})
 		c.Sub("assignment-targets", func(s *Sub) {
 			if c.Shard != 0 {
 				return
